@@ -195,11 +195,11 @@ Section Tx.
           intros Hu. rewrite left_id.
           destruct (j_objs j0 !! a) as [o0|] eqn:E0'.
           -- assert (Hxc : xcore (ext_of cs a) = xcore (ext_of cs0 a)) by (apply X1; by rewrite E0').
-             injection Hxc as Hxu _ _. rewrite Hxu in Hu.
+             injection Hxc as Hxu _ _. rewrite Hxu in Hu. simpl in Hu.
              destruct (sy_unc _ _ _ _ _ S0 a o0 E0') as [Hk _]. rewrite (Fpend a o Ho) E0' /=. by eapply Hk.
           -- assert (Hxc : xcore (ext_of cs a) = xcore fresh_ext).
              { destruct (X2 a) as [-> | ->]; [|done]. by apply (sy_absent _ _ _ _ _ S0). }
-             injection Hxc as Hxu _ _. by rewrite Hxu lookup_empty in Hu.
+             injection Hxc as Hxu _ _. rewrite Hxu lookup_empty in Hu. done.
       + destruct (HU a Hnt) as (U1 & U2 & U3 & U4 & U5). rewrite U1 in Ho1. rewrite Ho1 in U2.
         apply ocore_eq in U2. fold j0 in U2. destruct (j_objs j0 !! a) as [o0|] eqn:E0'; [|done].
         destruct U2 as (_ & Hpe & _). injection U3 as Hxu Hxr Hxt.
@@ -218,7 +218,7 @@ Section Tx.
       destruct (decide (a ∈ dom (j_muts j) ∧ is_Some (j_objs j !! a))) as [[Hd [o Ho]]|Hnt].
       + destruct (HT a o Hd Ho) as (T1 & T2 & T3). rewrite T1 in Hn. rewrite T2. unfold fin_x. by rewrite Hn.
       + destruct (HU a Hnt) as (U1 & U2 & U3 & U4 & U5). rewrite U1 in Hn. rewrite Hn in U2. rewrite U3.
-        apply (sy_absent _ _ _ _ _ S0). apply ocore_eq in U2. fold j0 in U2. by destruct (j_objs j0 !! a).
+        apply ocore_eq in U2. apply (sy_absent _ _ _ _ _ S0). fold j0. by destruct (j_objs j0 !! a).
     - (* sy_db *)
       intros a. rewrite Hdb' R' I1. apply (sy_db _ _ _ _ _ S0).
     - (* sy_origin *)
